@@ -229,15 +229,25 @@ def run_crowding(front_objs, goals):
 ERR = {"ValueError": "EValue", "OverflowError": "EOverflow", "ZeroDivisionError": "EZeroDiv"}
 
 
-def run_select(n, b, r):
+def make_selection(b, maximize=None):
+    """maximize=False is how generationalgorithmfactory configures the selection function of every GA
+    (`selection_function.maximize = False`); None = freshly constructed."""
     from pynguin.ga.operators.selection import RankSelection
+
+    sel = RankSelection(b)
+    if maximize is not None:
+        sel.maximize = maximize
+    return sel
+
+
+def run_select(n, b, r, maximize=None):
     from pynguin.utils import randomness
 
     old = randomness.next_float
     randomness.next_float = lambda *a, **k: r
     try:
         try:
-            return ("Idx", RankSelection(b).get_index([None] * n))
+            return ("Idx", make_selection(b, maximize).get_index([None] * n))
         except (ValueError, OverflowError, ZeroDivisionError) as e:
             return ("Err", type(e).__name__)
     finally:
@@ -295,6 +305,42 @@ def oracle_select(n, b, r, res):
         e = min(int(Fraction(n) * Fraction(r)), n - 1)
         if i != e:
             return ("rank-selection:bias-one:not-uniform", f"bias 1.0: index {i}, uniform selection gives {e} (n={n}, r={r!r})")
+    return None
+
+
+def sweep_histogram(n, b, maximize, steps_per_slot=64):
+    """Exact histogram of the selected indices over a deterministic sweep of the random source (midpoints of a
+    regular grid plus the values adjacent to 0 and 1).  None or (signature, message)."""
+    from pynguin.utils import randomness
+
+    steps = n * steps_per_slot
+    values = [0.0, math.nextafter(0.0, 1.0)] + [(k + 0.5) / steps for k in range(steps)] + [math.nextafter(1.0, 0.0)]
+    cur = [0.0]
+    old = randomness.next_float
+    randomness.next_float = lambda *a, **k: cur[0]
+    counts = [0] * n
+    try:
+        sel = make_selection(b, maximize)
+        pop = [None] * n
+        for v in values:
+            cur[0] = v
+            try:
+                i = sel.get_index(pop)
+            except (ValueError, OverflowError, ZeroDivisionError):
+                return None                      # reported by the per-point oracle
+            if not (isinstance(i, int) and 0 <= i < n):
+                return None
+            counts[i] += 1
+    finally:
+        randomness.next_float = old
+    # the interval of random values selecting index i never grows with i (C14_rank_real_no_worse_preferred); a grid
+    # of spacing 1/steps hits an interval of length L floor(L*steps) or ceil(L*steps) times, rounding moves at most
+    # one point across each end: tolerance 4
+    for i in range(n - 1):
+        if counts[i + 1] > counts[i] + 4:
+            return ("rank-selection:worse-rank-preferred",
+                    f"bias={b!r} size={n} maximize={maximize}: rank {i + 1} selected {counts[i + 1]} times, the better rank {i} "
+                    f"{counts[i]} times out of {len(values)} evenly spread random values; histogram head {counts[:5]} tail {counts[-3:]}")
     return None
 
 
@@ -494,10 +540,14 @@ def run(ctx: vlib.Ctx):
     # ---- rank selection ----------------------------------------------------------------------
     sel = [(c["n"], float.fromhex(c["bias"]), [float.fromhex(c["r"])]) for c in corpus if c["kind"] == "select"]
     sel += gen_select_lattice(rng, ctx.quick)
-    for n, b, rs in sel:
+    # the model has no `maximize` input: the index must not depend on it (the factory sets it to False)
+    MAXI = [False, None, False, True]
+    for gi, (n, b, rs) in enumerate(sel):
         prev = None
+        mx = MAXI[gi % len(MAXI)]
+        ctx.count(f"sel:maximize={mx}", len(rs))
         for r in rs:
-            res = run_select(n, b, r)
+            res = run_select(n, b, r, mx)
             bsq = pyfloat_pow2(b)
             ctx.case_seen(("sel", n, b.hex(), r.hex()))
             ctx.count("sel:bias=1" if b == 1.0 else ("sel:bias<1+2^-10" if b < 1 + 2.0 ** -10 else ("sel:bias<=2" if b <= 2 else "sel:bias>2")))
@@ -510,9 +560,19 @@ def run(ctx: vlib.Ctx):
                 o = ("rank-selection:not-monotone", f"index {prev[1]} for r={prev[0]!r} but {res[1]} for the larger r={r!r} (n={n}, bias={b!r})")
             if o:
                 n_oracle_fail += 1
-                ctx.fail(o[0], o[1], {"kind": "select", "n": n, "bias": b.hex(), "r": r.hex(), "bias_repr": repr(b), "r_repr": repr(r)})
+                ctx.fail(o[0], o[1], {"kind": "select", "n": n, "bias": b.hex(), "r": r.hex(), "bias_repr": repr(b), "r_repr": repr(r), "maximize": mx})
             if res[0] == "Idx":
                 prev = (r, res[1])
+    # distribution over a deterministic sweep of the random source, selection configured as by the factory
+    for b in [1.125, 1.5, 1.68, 1.7, 2.0, 3.0] + ([] if ctx.quick else [1.01, 1.3, 1.9, 2.5]):
+        for n in [2, 5, 10, 37] + ([] if ctx.quick else [50, 64]):
+            for mx in (False, None, True):
+                o = sweep_histogram(n, b, mx)
+                ctx.count("sel:sweep-histograms")
+                ctx.case_seen(("sweep", n, b, mx))
+                if o:
+                    n_oracle_fail += 1
+                    ctx.fail(o[0], o[1], {"kind": "sweep", "n": n, "bias": b.hex(), "bias_repr": repr(b), "maximize": mx})
     # biases outside the documented range / non-finite: correspondence only
     for b in [0.5, 0.0, -1.0, 0.999, float("inf"), float("nan")]:
         for r in [0.0, 0.3, below_one(1)]:
@@ -559,10 +619,12 @@ def replay(ctx, path):
     d = json.loads(open(path).read())["replay"]
     if d.get("kind") == "select":
         n, b, r = d["n"], float.fromhex(d["bias"]), float.fromhex(d["r"])
-        res = run_select(n, b, r)
+        res = run_select(n, b, r, d.get("maximize"))
         print("implementation:", res, "oracle:", oracle_select(n, b, r, res))
         print("model:", ctx.coq_eval("From Coq Require Import PrimFloat.\nFrom Verif Require Import Models.C14.",
                                      f"C14.get_index {cZ(n)} {cfloat(b)} {cfloat(pyfloat_pow2(b))} {cfloat(r)}"))
+    elif d.get("kind") == "sweep":
+        print("oracle:", sweep_histogram(d["n"], float.fromhex(d["bias"]), d.get("maximize")))
     elif d.get("kind") == "ranking":
         case = d["case"]
         case["sols"] = [tuple(s) for s in case["sols"]]
